@@ -82,13 +82,22 @@ func (s *setRun) apply(op string) (res string, panicked any) {
 		}
 		return "k", nil
 	case "S":
+		if src := unhx(p[1]); len(src)%2 == 1 {
+			return tplRes(s.set.FromBytes([]byte(src))), nil
+		}
 		return tplRes(s.set.FromString(unhx(p[1]))), nil
 	case "F":
 		return tplRes(s.set.FromFile(unhx(p[1]))), nil
 	case "C":
 		return tplRes(s.set.FromCache(unhx(p[1]))), nil
 	case "R":
-		out, err := s.set.RenderTemplateString(unhx(p[1]), pongo2.Context{})
+		var out string
+		var err error
+		if src := unhx(p[1]); len(src)%2 == 1 {
+			out, err = s.set.RenderTemplateBytes([]byte(src), pongo2.Context{})
+		} else {
+			out, err = s.set.RenderTemplateString(src, pongo2.Context{})
+		}
 		if err != nil {
 			return "oe", nil
 		}
